@@ -3,15 +3,21 @@ from .chain import ChainEngine
 from .mhkernel import MHKernelEngine
 from .gibbs import GibbsEngine
 from .streams import StreamsEngine
+from .objhist import ObjHistEngine
 
 REGISTRY = {
     "chain": ChainEngine,
     "mhkernel": MHKernelEngine,
     "gibbs": GibbsEngine,
     "streams": StreamsEngine,
+    "objhist": ObjHistEngine,
 }
 
 PLAN = {
+    "C11": [{"engine": "objhist", "level": "exploration",
+             "quick": {"runs": 400, "budget_s": 240}, "thorough": {"runs": 20000, "budget_s": 3000}}],
+    "C01": [{"engine": "objhist", "level": "exploration",
+             "quick": {"runs": 400, "budget_s": 240}, "thorough": {"runs": 20000, "budget_s": 3000}}],
     "C05": [{"engine": "streams", "level": "exploration",
              "quick": {"runs": 2000, "budget_s": 240}, "thorough": {"runs": 100000, "budget_s": 3000}}],
     "C09": [{"engine": "gibbs", "level": "exploration",
